@@ -191,6 +191,14 @@ def unit_arg(kind, ty="int"):
         vars_ = [{"name": "V0", "module": "main", "values": [a, b]}]
         kargs = {"args": [{"var": "V0"}], "kwargs": []}
         eps = [{"id": "V0", "kind": "var_value", "n": 2}]
+    elif kind == "lit_kw_into_varkw":
+        # the edited keyword is absorbed by the function's **kw parameter
+        params = [["x", None], ["**kw", None]]
+        kargs = {"args": [{"lit": "7"}], "kwargs": [["y", {"ep": "A"}]]}
+    elif kind == "lit_pos_into_varargs":
+        # the edited value is the second surplus positional argument absorbed by *rest
+        params = [["x", None], ["*rest", None]]
+        kargs = {"args": [{"lit": "7"}, {"lit": "2"}, {"ep": "A"}], "kwargs": []}
     elif kind == "rt_var_starkw":
         vars_ = [{"name": "V0", "module": "main", "values": [a, b]}]
         kargs = {"args": [{"lit": "7"}], "kwargs": [["y", {"var": "V0"}]], "starkw": True}
@@ -198,6 +206,17 @@ def unit_arg(kind, ty="int"):
     elif kind == "rt_var_starargs":
         vars_ = [{"name": "V0", "module": "main", "values": [a, b]}]
         kargs = {"args": [{"lit": "7"}, {"var": "V0"}], "kwargs": [], "starargs": True}
+        eps = [{"id": "V0", "kind": "var_value", "n": 2}]
+    elif kind == "rt_var_starargs_defaults":
+        # every parameter has a default and the only argument is an unpacked tuple: f(*(V,))
+        params = [["x", "0"], ["y", "10"]]
+        vars_ = [{"name": "V0", "module": "main", "values": [a, b]}]
+        kargs = {"args": [{"var": "V0"}], "kwargs": [], "starargs": True}
+        eps = [{"id": "V0", "kind": "var_value", "n": 2}]
+    elif kind == "rt_var_starkw_defaults":
+        params = [["x", "0"], ["y", "10"]]
+        vars_ = [{"name": "V0", "module": "main", "values": [a, b]}]
+        kargs = {"args": [], "kwargs": [["y", {"var": "V0"}]], "starkw": True}
         eps = [{"id": "V0", "kind": "var_value", "n": 2}]
     elif kind == "rt_inline":
         extra = [{"name": "h1", "module": "main", "params": [], "body": []}]
@@ -391,10 +410,11 @@ def unit_programs(level="quick"):
         out.append(unit_var_ctx(ctx, "from"))
     for form in ("from", "attr", "alias"):
         out.append(unit_body("method", form=form, leaf_module="lib"))
+    out += [unit_arg("lit_kw_into_varkw"), unit_arg("lit_pos_into_varargs")]
     for kind in ("lit_pos", "lit_kw", "lit_pos2", "lit_kw2", "default", "rt_local_const"):
         for ty in LIT:
             out.append(unit_arg(kind, ty))
-    for kind in ("rt_local_helper", "rt_local_helper_twice", "rt_var", "rt_var_starkw", "rt_var_starargs", "rt_inline", "rt_inline_kw", "rt_multiline", "rt_multiline_keep", "rt_ml2_lit", "rt_ml3_lit"):
+    for kind in ("rt_local_helper", "rt_local_helper_twice", "rt_var", "rt_var_starkw", "rt_var_starargs", "rt_var_starargs_defaults", "rt_var_starkw_defaults", "rt_inline", "rt_inline_kw", "rt_multiline", "rt_multiline_keep", "rt_ml2_lit", "rt_ml3_lit"):
         out.append(unit_arg(kind))
     out += [unit_ext("fn"), unit_ext("var")]
     out += [unit_structural(k) for k in ("unrel", "reorder", "cmt_other")]
